@@ -119,5 +119,64 @@ P = P3("C03", CONFIGS, typed=False, corpus_cases=corpus_cases, quick_cases=8, th
              "has an existing parent directory; all outcomes and snapshots are also compared with the model"),
        assumptions=["random histories keep C01's write-handle exclusion; the directed corpus does not (handles outliving "
                     "their file in five ways on seven configurations)"])
-generate, corpus, run_and_compare = P.generate, P.corpus, P.run_and_compare
-RULE, ASSUMPTIONS, BUILDS = P.RULE, P.ASSUMPTIONS, P.BUILDS
+generate, corpus = P.generate, P.corpus
+
+
+def concurrent_orphans(tier):
+    """the tree invariant under interleaving: entries created below a directory while another thread removes it (or
+    replaces it by a file) - after every schedule, every entry of the final snapshot has a directory for a parent"""
+    from props import conclib
+    cfg = ["base mem", "fs base 0"]
+    cfgs = {"mem": (cfg, 0, ["createdir 0:j61"]),
+            "alt": (["base mem", "fs base 0", "fs alt 0 " + vfx.hexs("/r")], 1, ["createdirall 0:j72", "createdir 1:j61"])}
+    progs = []
+    for cname, (cf, t, setup) in cfgs.items():
+        def ps(q):
+            return vfx.ps(t, q)
+        # the creating thread ends by asking for its entry and then for the entry's parent: "the child exists, its parent
+        # does not" is an orphan seen by a caller (an orphan is unreachable by listings, so the final snapshot cannot show it)
+        specs = [
+            [["createfile " + ps("a/f"), "hwrite 0 78", "hdrop 0", "exists " + ps("a/f"), "isdir " + ps("a")], ["removedir " + ps("a")]],
+            [["createdir " + ps("a/b"), "exists " + ps("a/b"), "isdir " + ps("a")], ["removedir " + ps("a")]],
+            [["createfile " + ps("a/f"), "hwrite 0 78", "hdrop 0", "exists " + ps("a/f"), "isdir " + ps("a")],
+             ["removedir " + ps("a"), "createfile " + ps("a"), "hdrop 1"]],
+            [["createdirall " + ps("a/b/c"), "exists " + ps("a/b/c"), "isdir " + ps("a/b")], ["removedir " + ps("a")]],
+        ]
+        for i, threads in enumerate(specs):
+            progs.append(conclib.Prog("c03c_%s_%d" % (cname, i), cf, setup, threads, "explore 4000"))
+    explored = conclib.explore(progs, "c03c")
+    by = {p.name: p for p in progs}
+    out, n = [], 0
+    for name, d in explored.items():
+        for sch, rest in d["runs"]:
+            n += 1
+            if "DEADLOCK" in rest or " || " not in rest:
+                continue
+            t0 = rest.split(" :: ", 1)[1].split(" || ")[0].split(" | ")[0].split(";")
+            if len(t0) >= 2 and t0[-2].strip() == "ok:bool:1" and t0[-1].strip() == "ok:bool:0" and not any(x["case"] == name for x in out):
+                out.append({"case": name, "case_text": by[name].text(schedule=sch), "step": None, "op": "schedule " + sch,
+                            "model": None, "impl": rest, "violates": True, "cfg": "conc",
+                            "note": "orphan seen by its creator under a concurrent schedule: the entry exists, its parent is not a directory"})
+            snap = rest.split(" || ", 1)[1]
+            ents = histprop.snap_entries(snap) or []
+            dirs = set(vfx.unhex(e[0]).decode("utf-8", "replace") for e in ents if e[0] != "-" and ":dir:" in e[1])
+            allp = [vfx.unhex(e[0]).decode("utf-8", "replace") for e in ents if e[0] != "-" and e[1].startswith("ok:meta")]
+            for q in allp:
+                par = q.rsplit("/", 1)[0]
+                if par and par not in dirs and not any(x["case"] == name for x in out):
+                    out.append({"case": name, "case_text": by[name].text(schedule=sch), "step": None, "op": "schedule " + sch,
+                                "model": None, "impl": rest, "violates": True, "cfg": "conc",
+                                "note": "orphan after a concurrent schedule: %s exists, its parent is not a directory" % q})
+    return out, n
+
+
+def run_and_compare(cases, tier):
+    res = P.run_and_compare(cases, tier)
+    dis, n = concurrent_orphans(tier)
+    res["disagreements"] = res["disagreements"] + dis
+    res["stats"].setdefault("distribution", {})["concurrent_schedules_checked_for_orphans"] = n
+    return res
+ASSUMPTIONS, BUILDS = P.ASSUMPTIONS, P.BUILDS
+RULE = P.RULE + ("; CONCURRENT: entries created below a directory while another thread removes it or replaces it by a file "
+                 "(MemoryFS and an altroot over it, all schedules at lock granularity): after every schedule every entry of the "
+                 "final snapshot has a directory for a parent")
